@@ -111,6 +111,19 @@ var histProgs = []string{
 	"let c=numbers(8).accept(e->if e=6 then e.nokey else e%2=0); (c = [0,2,4]) | (a=b)",
 	"let c=numbers(8).map(e->[e,e+1].map(x->if x=7 then x.nokey else x)); try c[a%8].sum() catch 0-1",
 	"let m={l:[3,\"q\",5].map(e->e+1), n:a}; try m.l[b%3] catch m.n",
+	// let-bound values whose dependency on the arguments sits in every syntactic position
+	"let k=switch true case a<3: \"low\" case a=3: \"mid\" default \"high\"; k+b",
+	"let k=switch 1 case a%2: \"odd\" default \"even\"; let j=switch b case a: \"same\" case a+1: \"next\" default \"far\"; k+j",
+	"let k=try [1,2,3][a%5] catch 0-1; k*100+b",
+	"let k=if a>b then \"x\" else \"y\"; let j=if a%2=0 then k+k else k; j",
+	"let k={p:1,q:2}.get(if a%2=0 then \"p\" else \"q\"); let j=[10,20,30][a%3]; k*1000+j+b",
+	"let f=x->switch true case x<a: 0 case x=a: 1 default 2; [f(b), f(a), f(a+1), f(0)].string()",
+	"let k=\"abcdef\".cut(a%3, 1+b%2); let t=(x->y->x*10+y)(a); k+t(b)",
+	"let m={x:a, y:[b,a]}; let k=m.x+m.y[0]; let n=m.put(\"z\", k); n.z*10+n.y.size()",
+	"func g(n) switch true case n<a: 0 case n<a+b: 1 default n; g(b)+g(a)*10+g(a+b)*100",
+	"let k=sprintf(\"%d|%v\", a, [b]); let j=k.len(); k+j",
+	"let c=[1,2,3,4,5,6]; let k=c.accept(x->x%(a%3+2)=0); let j=c.map(x->x+b).top(a%4+1); k.string()+j.string()",
+	"let k=(x->if x>a then x-a else a-x); let w={f:k, g:y->k(y)+b}; w.f(b)+w.g(0)*1000",
 }
 
 func genHistArgs(r *rng) []Arg {
@@ -305,7 +318,15 @@ var c09DeriveMap = []string{
 	"m.put(\"l\", [v, i]).put(\"mm\", {z:v})",
 	"m.replace(x->{k0:v}).replace(x->{k1:i})",
 	"m.map((k,x)->[x,v])",
+	// long chains of single puts (the append-only representation), branched afterwards
+	"numbers(i+7).mapReduce(m, (acc,x)->acc.put(\"c\"+x, x+v))",
+	"numbers(i+4).mapReduce(m.put(\"k2\", v), (acc,x)->acc.put(\"c\"+x, x))",
+	"m.put(\"k2\", v)",
+	"m.put(\"k2\", i)",
 }
+
+// keys the map operations above can create: looked up one by one by the lookup observer
+const c09LookupObserver = `["a","b","c","k0","k1","k2","zz","yy","p","q","w","l","mm","inner","n5","n6","n7","n100","o0","o1","o2","o3","o7","rm5","rm6","rm7","rm100","c0","c1","c5","c7","c9","z"].map(k->[m.isAvail(k), try m.get(k) catch "none", k ~ m])`
 
 func genC09(r *rng, tier string) *Case {
 	const nH = 8
@@ -355,6 +376,22 @@ func genC09(r *rng, tier string) *Case {
 			ops = append(ops, Op{Kind: "eval", Fn: fn("h", "h"), Args: []Arg{{K: "handle", I: s}}, Consume: -1, Observe: true})
 			if r.chance(0.5) {
 				ops = append(ops, Op{Kind: "eval", Fn: fn("[h.size(), h.string()]", "h"), Args: []Arg{{K: "handle", I: s}}, Consume: -1, Observe: true})
+			}
+			if isMap[s] && r.chance(0.6) {
+				// key by key: lookups need not go the same way as iteration
+				ops = append(ops, Op{Kind: "eval", Fn: fn(c09LookupObserver, "m"), Args: []Arg{{K: "handle", I: s}}, Consume: -1, Observe: true})
+			}
+			if r.chance(0.3) {
+				// equality with another value of the same kind: both are immutable, the answer must not change
+				var same []int
+				for _, t := range live {
+					if t != s && isMap[t] == isMap[s] {
+						same = append(same, t)
+					}
+				}
+				if len(same) > 0 {
+					ops = append(ops, Op{Kind: "eval", Fn: fn("[h=g, g=h]", "h", "g"), Args: []Arg{{K: "handle", I: s}, {K: "handle", I: pick(r, same...)}}, Consume: -1, Observe: true})
+				}
 			}
 		}
 	}
@@ -659,6 +696,9 @@ func judgeC09(name string, sc *Script, r *RunOut, o *Obs) {
 			continue
 		}
 		key := fmt.Sprintf("h%d/%d", op.Args[0].I, op.Fn)
+		if len(op.Args) > 1 && op.Args[1].K == "handle" {
+			key += fmt.Sprintf("/h%d", op.Args[1].I)
+		}
 		if !outs[j].Ok {
 			continue // a failing observation (injected fault) is no value
 		}
